@@ -25,6 +25,7 @@ import (
 	"verif/evid"
 	_ "verif/quiet"
 	"verif/rep"
+	"verif/shim/vos"
 	"verif/shim/vsyncq"
 	"verif/vrt"
 )
@@ -54,7 +55,24 @@ type sys struct {
 	mi       *core.MetaInfo
 	complete []bool // model
 	accepted []bool // a correct payload was accepted (returned nil)
+
+	// environment faults (E3 only): maxFaults I/O errors may be injected per
+	// history, each at the k-th file-system primitive of one WritePiece.
+	ta        *agentstorage.TorrentArchive
+	ctl       *vos.Ctl
+	maxFaults int
+	faults    int
+	maxPrims  int // primitives per WritePiece seen so far on this instance's calibration
+	cnt       int // primitive counter of the running op
+	failAt    int // 0 = none
+	fired     string
 }
+
+var errInjected = errors.New("injected I/O error")
+
+// primsPerWrite is the largest number of file-system primitives one WritePiece
+// was seen to perform (calibrated per blob spec before the BFS starts).
+var primsPerWrite = map[string]int{}
 
 func newSys(spec blobSpec) (*sys, error) {
 	dir, err := os.MkdirTemp("", "c03-")
@@ -89,13 +107,57 @@ func newSys(spec blobSpec) (*sys, error) {
 		return nil, err
 	}
 	n := spec.numPieces()
-	return &sys{spec: spec, dir: dir, cads: cads, t: t.(*agentstorage.Torrent), mi: mi, complete: make([]bool, n), accepted: make([]bool, n)}, nil
+	return &sys{spec: spec, dir: dir, cads: cads, ta: ta, t: t.(*agentstorage.Torrent), mi: mi, complete: make([]bool, n), accepted: make([]bool, n)}, nil
+}
+
+// newFaultSys is newSys with the fault injector armed on the store directory.
+func newFaultSys(spec blobSpec, maxFaults int) (*sys, error) {
+	s, err := newSys(spec)
+	if err != nil {
+		return nil, err
+	}
+	s.maxFaults = maxFaults
+	s.ctl = vos.Register(s.dir, 0)
+	s.ctl.Fault = func(desc string) error {
+		s.cnt++
+		if s.failAt > 0 && s.cnt == s.failAt {
+			s.fired = desc
+			return errInjected
+		}
+		return nil
+	}
+	return s, nil
 }
 
 func (s *sys) Close() {
+	if s.ctl != nil {
+		s.ctl.Unregister()
+	}
 	s.cads.Close()
 	os.RemoveAll(s.dir)
 }
+
+// calibrate counts the primitives of each WritePiece of a full in-order download.
+func calibrate(spec blobSpec) (int, error) {
+	s, err := newFaultSys(spec, 0)
+	if err != nil {
+		return 0, err
+	}
+	defer s.Close()
+	max := 0
+	for i := 0; i < spec.numPieces(); i++ {
+		s.cnt = 0
+		if err := s.t.WritePiece(piecereader.NewBuffer(spec.piece(i)), i); err != nil {
+			return 0, err
+		}
+		if s.cnt > max {
+			max = s.cnt
+		}
+	}
+	return max, nil
+}
+
+func specKey(spec blobSpec) string { return fmt.Sprintf("%s/%d", spec.content, spec.pl) }
 
 var kinds = []string{"ok", "flip", "short", "long", "empty"}
 
@@ -144,7 +206,69 @@ func (s *sys) Ops() []string {
 			ops = append(ops, fmt.Sprintf("w %d %s", i, k))
 		}
 	}
+	if s.ctl != nil {
+		ops = append(ops, "reopen")
+		if s.faults < s.maxFaults {
+			for i := 0; i < n; i++ {
+				for k := 1; k <= primsPerWrite[specKey(s.spec)]; k++ {
+					ops = append(ops, fmt.Sprintf("f %d %d", i, k))
+				}
+			}
+		}
+	}
 	return ops
+}
+
+// reopen replaces the Torrent by a new one restored from what is on disk (what
+// an agent restart, or eviction from the archive's cache, does).
+func (s *sys) reopen() error {
+	t, err := s.ta.GetTorrent("ns", s.mi.Digest())
+	if err != nil {
+		if s.faults > 0 {
+			return nil // a faulted history may leave a download that cannot be reopened
+		}
+		return bfs.Failf("download cannot be reopened", "GetTorrent: %v", err)
+	}
+	nt := t.(*agentstorage.Torrent)
+	bf := nt.Bitfield()
+	for i := range s.complete {
+		if s.accepted[i] && !bf.Test(uint(i)) {
+			return bfs.Failf("accepted piece lost on reopen", "piece %d was accepted (nil) but the reopened torrent reports it missing", i)
+		}
+		// what the restored torrent reports complete is checked byte for byte below
+		s.complete[i] = bf.Test(uint(i))
+	}
+	s.t = nt
+	return s.checkState("reopen")
+}
+
+// faultWrite writes the correct payload of piece i while the k-th file-system
+// primitive of that WritePiece fails.
+func (s *sys) faultWrite(i, k int) error {
+	s.cnt, s.failAt, s.fired = 0, k, ""
+	err, pan := writePiece(s.t, s.spec.piece(i), i)
+	s.failAt = 0
+	if pan != "" {
+		return bfs.Failf("panic in WritePiece under I/O fault", "piece %d fault at primitive %d (%s): %s", i, k, s.fired, pan)
+	}
+	if s.fired == "" {
+		// fewer than k primitives: an ordinary correct write
+		return s.judge(fmt.Sprintf("w %d ok", i), i, "ok", s.spec.piece(i), err)
+	}
+	s.faults++
+	was := s.complete[i]
+	now := s.t.Bitfield().Test(uint(i))
+	switch {
+	case was && !now:
+		return bfs.Failf("verified piece reported missing after an I/O fault", "piece %d fault at %q: err=%v", i, s.fired, err)
+	case err == nil && !now:
+		return bfs.Failf("write returned nil but piece not complete (fault)", "piece %d fault at %q", i, s.fired)
+	}
+	if err == nil {
+		s.accepted[i] = true
+	}
+	s.complete[i] = now
+	return s.checkState(fmt.Sprintf("fault %d@%q", i, s.fired))
 }
 
 // writePiece calls the real WritePiece, turning a panic into an error marker.
@@ -158,8 +282,14 @@ func writePiece(t *agentstorage.Torrent, data []byte, i int) (err error, panicke
 }
 
 func (s *sys) Apply(op string) error {
-	var i int
+	var i, k int
 	var kind string
+	if op == "reopen" {
+		return s.reopen()
+	}
+	if _, err := fmt.Sscanf(op, "f %d %d", &i, &k); err == nil {
+		return s.faultWrite(i, k)
+	}
 	if _, err := fmt.Sscanf(op, "w %d %s", &i, &kind); err != nil {
 		return err
 	}
@@ -175,6 +305,12 @@ func (s *sys) Apply(op string) error {
 		}
 		return bfs.Failf("panic in WritePiece ("+cls+")", "op %q panicked: %s", op, pan)
 	}
+	return s.judge(op, i, kind, data, err)
+}
+
+// judge compares the answer of one un-faulted WritePiece with the model.
+func (s *sys) judge(op string, i int, kind string, data []byte, err error) error {
+	n := s.spec.numPieces()
 	valid := i >= 0 && i < n
 	correct := valid && bytes.Equal(data, s.spec.piece(i))
 	switch {
@@ -229,7 +365,12 @@ func (s *sys) checkState(ctx string) error {
 	if fmt.Sprint(s.t.MissingPieces()) != fmt.Sprint(miss) {
 		return bfs.Failf("MissingPieces differs from model", "%s: got %v want %v", ctx, s.t.MissingPieces(), miss)
 	}
-	if s.t.Complete() != (nc == n) {
+	if s.faults > 0 {
+		// after an I/O fault the commit itself may have failed: only safety remains
+		if s.t.Complete() && nc != n {
+			return bfs.Failf("Complete() although not every piece is verified (fault)", "%s: verified %d/%d", ctx, nc, n)
+		}
+	} else if s.t.Complete() != (nc == n) {
 		return bfs.Failf("Complete() differs from all-pieces-verified", "%s: Complete=%v verified %d/%d", ctx, s.t.Complete(), nc, n)
 	}
 	return s.checkBytes(ctx)
@@ -243,7 +384,7 @@ func (s *sys) checkBytes(ctx string) error {
 		if err != nil {
 			return bfs.Failf("complete torrent not readable from cache", "%s: %v", ctx, err)
 		}
-		b, _ := io.ReadAll(r)
+		b, _ := readAll(r)
 		r.Close()
 		if !bytes.Equal(b, s.spec.content) {
 			return bfs.Failf("committed file differs from blob", "%s: cache has %q want %q", ctx, b, s.spec.content)
@@ -266,6 +407,9 @@ func (s *sys) checkBytes(ctx string) error {
 		}
 		b, err := io.ReadAll(pr)
 		pr.Close()
+		if err != nil && s.faults > 0 && !s.t.Complete() {
+			continue // a failed commit may leave the data file unreachable; never wrong bytes
+		}
 		if err != nil || !bytes.Equal(b, s.spec.piece(i)) {
 			return bfs.Failf("piece reported complete has wrong bytes", "%s: piece %d has %q want %q (err %v)", ctx, i, b, s.spec.piece(i), err)
 		}
@@ -288,8 +432,39 @@ func (s *sys) Key() string {
 		r.Close()
 		fmt.Fprintf(&b, "|%x", x)
 	}
-	fmt.Fprintf(&b, "|%v|%v", s.t.Complete(), s.t.Bitfield().String())
+	fmt.Fprintf(&b, "|%v|%v|%d", s.t.Complete(), s.t.Bitfield().String(), s.t.BytesDownloaded())
+	if s.ctl != nil {
+		fmt.Fprintf(&b, "|faults=%d|%s", s.faults, s.diskStatus())
+	}
 	return b.String()
+}
+
+func readAll(r io.Reader) ([]byte, error) { return io.ReadAll(r) }
+
+// diskStatus lists the store directory (names and sidecar contents): part of
+// the state key in fault mode, where memory and disk may differ.
+func (s *sys) diskStatus() string {
+	var out []string
+	filepathWalk(s.dir, func(p string, isDir bool) {
+		if isDir {
+			return
+		}
+		b, _ := os.ReadFile(p)
+		out = append(out, fmt.Sprintf("%s=%x", strings.TrimPrefix(p, s.dir), b))
+	})
+	sort.Strings(out)
+	return strings.Join(out, ",")
+}
+
+func filepathWalk(dir string, f func(p string, isDir bool)) {
+	es, _ := os.ReadDir(dir)
+	for _, e := range es {
+		p := dir + "/" + e.Name()
+		f(p, e.IsDir())
+		if e.IsDir() {
+			filepathWalk(p, f)
+		}
+	}
 }
 
 // ---------------------------------------------------------------- E1
@@ -459,6 +634,29 @@ func main() {
 		spec := spec
 		name := fmt.Sprintf("seq len=%d pl=%d depth=%d", len(spec.content), spec.pl, depth)
 		res := rep.BFS(run, name, bfs.Config{MaxDepth: depth, New: func() (bfs.System, error) { return newSys(spec) }})
+		for i := 0; i < res.States; i++ {
+			run.Distinct(fmt.Sprintf("%s#%d", name, i))
+		}
+	}
+	// E3 with environment answers: the same alphabet plus "the k-th file-system
+	// primitive of this WritePiece fails" (k over every primitive a write was
+	// seen to perform) and "reopen from disk"; at most maxFaults faults per history.
+	fdepth, maxFaults := 3, 1
+	fspecs := []blobSpec{{[]byte("abc"), 2}}
+	if run.Thorough() {
+		fdepth = 4
+		fspecs = append(fspecs, blobSpec{[]byte("abcde"), 2})
+	}
+	for _, spec := range fspecs {
+		spec := spec
+		k, err := calibrate(spec)
+		if err != nil {
+			run.Fatal(err)
+		}
+		primsPerWrite[specKey(spec)] = k
+		run.Set("fs_primitives_per_write_"+fmt.Sprint(len(spec.content)), k)
+		name := fmt.Sprintf("fault-seq len=%d pl=%d depth=%d faults<=%d prims=%d", len(spec.content), spec.pl, fdepth, maxFaults, k)
+		res := rep.BFS(run, name, bfs.Config{MaxDepth: fdepth, New: func() (bfs.System, error) { return newFaultSys(spec, maxFaults) }})
 		for i := 0; i < res.States; i++ {
 			run.Distinct(fmt.Sprintf("%s#%d", name, i))
 		}
